@@ -14,6 +14,7 @@ import (
 	"github.com/gopacket/gopacket/reassembly"
 
 	"verif/sim"
+	"verif/sim/bubble"
 	"verif/sim/tcpsim"
 )
 
@@ -31,7 +32,8 @@ type adapter struct {
 	pool     *reassembly.StreamPool
 	a        *reassembly.Assembler
 	keep     int
-	complete int // 0 always remove, 1 never, 2 by tape
+	complete int  // 0 always remove, 1 never, 2 by tape
+	clock    bool // packets are fed with Assemble(), which reads the (simulated) clock itself
 }
 
 type actx struct{ ci gopacket.CaptureInfo }
@@ -176,6 +178,15 @@ func mkWith(keepPolicies bool, completePolicies bool) func(h *tcpsim.Harness) tc
 }
 
 func (ad *adapter) Assemble(n gopacket.Flow, t *layers.TCP, ts time.Time) {
+	if ad.clock {
+		// Assemble builds its own context from time.Now(): inside the bubble that
+		// is the simulated clock, advanced here to the packet's capture time
+		if d := time.Until(ts); d > 0 {
+			time.Sleep(d)
+		}
+		ad.a.Assemble(n, t)
+		return
+	}
 	ad.a.AssembleWithContext(n, t, &actx{gopacket.CaptureInfo{Timestamp: ts, CaptureLength: len(t.Payload), Length: len(t.Payload)}})
 }
 func (ad *adapter) FlushT(t time.Time) (int, int) {
@@ -268,12 +279,27 @@ var sims = map[string]sim.SimFunc{
 	"c09": func(c *sim.Ctx) {
 		tcpsim.Run(c, tcpsim.RunCfg{Strong: true, Bidir: true, Gen: tcpsim.GenCfg{MaxConns: 3, AllowNoEnd: true, AllowRST: true, SynData: true}}, mkWith(true, false))
 	},
+	"c09clock": func(c *sim.Ctx) {
+		bubble.Run(c, func(b *bubble.B) {
+			old := tcpsim.Base
+			tcpsim.Base = time.Now()
+			defer func() { tcpsim.Base = old }()
+			inner := mkWith(true, false)
+			tcpsim.Run(c, tcpsim.RunCfg{Strong: true, Bidir: true, Gen: tcpsim.GenCfg{MaxConns: 3, AllowNoEnd: true, AllowRST: true, SynData: true}}, func(h *tcpsim.Harness) tcpsim.Assembler {
+				ad := inner(h).(*adapter)
+				ad.clock = true
+				return ad
+			})
+			c.Probe("assembled_on_simulated_clock")
+		})
+	},
 	"c11r": func(c *sim.Ctx) {
 		tcpsim.Run(c, tcpsim.RunCfg{Lifecycle: true, Bidir: true, Gen: tcpsim.GenCfg{MaxConns: 8, AllowNoEnd: true, AllowRST: true, CloseFlush: true, Reopen: true, BackJumps: true, Short: true, SynData: true, Wide: true}}, mkWith(true, true))
 	},
 }
 
 func TestChild(t *testing.T) {
+	bubble.T = t
 	if !sim.ChildMain(sims) {
 		t.Skip("not a child")
 	}
